@@ -238,9 +238,24 @@ func c13Shapes(r *ev.Run, b shapeBounds) {
 			if si.Img.Depth[u.name] == 3 {
 				r.Sample(map[string]interface{}{"image": si.Desc, "index": u.name, "cut_keys": len(keys), "example_key": RowS(keys[len(keys)/2])})
 			}
-			for _, key := range keys {
+			for ki := 0; ki < 2*len(keys); ki++ {
+				key := keys[ki%len(keys)]
 				dk := toDbKey(key, u.cols)
-				art := map[string]interface{}{"image": si.Desc, "index": u.name, "key": RowS(key)}
+				extraDesc := ki >= len(keys)
+				if extraDesc {
+					// a key column past the index's columns, flagged DESC
+					width := 0
+					if len(full) > 0 {
+						width = len(full[0])
+					}
+					if width == 0 || len(key) <= width {
+						continue
+					}
+					for x := width; x < len(dk); x++ {
+						dk[x].Desc = true
+					}
+				}
+				art := map[string]interface{}{"image": si.Desc, "index": u.name, "key": RowS(key), "extra_columns_desc": extraDesc}
 				r.Eval(1)
 				if deep {
 					r.NontrivialN(1)
